@@ -100,6 +100,10 @@ class C06Scenario(ChangeScenario):
                 timers_running[(p['uid'], p['id'])] = timers_running.get((p['uid'], p['id']), 0) - 1
             elif k == 'daemon-enter':
                 daemons[(p['uid'], p['id'], p['inst'])] = {'enter': t, 'flag': None, 'exit': None, 'op': p['op']}
+                if p.get('sync'):
+                    # a synchronous daemon is deaf to its stop flag: the flag is taken to be raised when its object is marked for deletion
+                    marked_at = next((w2['t'] for w2 in env.world.writes if w2['verb'] == 'mark-deleted' and (w2['pre'] or {}).get('metadata', {}).get('uid') == p['uid']), None)
+                    daemons[(p['uid'], p['id'], p['inst'])]['flag_when_marked'] = marked_at
             elif k == 'daemon-flag':
                 d = daemons.get((p['uid'], p['id'], p['inst']))
                 if d is not None and d['flag'] is None:
@@ -148,11 +152,12 @@ class C06Scenario(ChangeScenario):
                                     if duid != uid or did != h['id'] or d['exit'] is not None or d['op'] in dead_ops:
                                         continue
                                     backoff, timeout = h.get('cancellation_backoff'), h.get('cancellation_timeout')
-                                    abandoned = (timeout is not None and d['flag'] is not None
-                                                 and t >= d['flag'] + (backoff or 0) + timeout)
+                                    flag = d['flag'] if d['flag'] is not None else d.get('flag_when_marked')
+                                    abandoned = (timeout is not None and flag is not None
+                                                 and t >= flag + (backoff or 0) + timeout)
                                     if not abandoned:
                                         out.append(self.viol(env, 'released-early',
-                                                             f"t={t}: finalizer removed while daemon {did} (flag at {d['flag']}, "
+                                                             f"t={t}: finalizer removed while daemon {did} (flag at {flag}, "
                                                              f"backoff={backoff}, timeout={timeout}) has neither exited nor been abandoned",
                                                              clause='early', why='daemon', pattern=pattern))
                     else:
@@ -264,6 +269,10 @@ def scenarios(tier: str) -> tuple[list[C06Scenario], list[C06Scenario]]:
                     user = [(1.0, 'create', 'a'), (3.0, 'addfin', 'a', 'other/fin'), (10.0, 'delete', 'a'), (11.0, 'delfin', 'a', 'other/fin')]
                 base.append(C06Scenario(handlers=handlers, user=user, settings=st, horizon=50.0, variant=variant,
                                         no_liveness=(reaction == 'ignore' and timeout is None) or (reaction == 'cancel' and timeout is None and False)))
+    # a synchronous daemon (a thread: deaf to the flag, uncancellable) that outlives the deletion: released when abandoned, not before
+    for backoff, timeout, dur in ((2.0, 3.0, 20.0), (None, 3.0, 20.0), (2.0, 3.0, 12.5)):
+        base.append(C06Scenario(handlers=[dict(id='dm', on='daemon', body='sync', duration=dur, cancellation_backoff=backoff, cancellation_timeout=timeout)],
+                                user=[(1.0, 'create', 'a'), (10.0, 'delete', 'a'), (11.0, 'status', 'a', 1)], settings=st, horizon=50.0, variant='sync-daemon'))
     # two spawned handlers: the first-registered one exits on its own, the other keeps requiring the finalizer
     for second in (dict(id='dm2', on='daemon', reaction='cancel', cancellation_backoff=None, cancellation_timeout=3.0),
                    dict(id='dm2', on='daemon', reaction='obeys', exit_delay=1.0),
